@@ -120,6 +120,58 @@ def freevars_tie(P, rules):
     return None, len(args)
 
 
+def all_calls(e, out):
+    k = e[0]
+    if k in ('seq', 'choice'):
+        for x in e[1]:
+            all_calls(x, out)
+    elif k in ('star', 'opt', 'where', 'apply', 'rep'):
+        all_calls(e[1], out)
+    elif k == 'let':
+        all_calls(e[2], out)
+        all_calls(e[3], out)
+    elif k == 'applyl':
+        all_calls(e[1], out)
+        all_calls(e[2], out)
+    elif k == 'call':
+        out.append(e)
+        for _, a in e[2]:
+            all_calls(a, out)
+    elif k == 'bseq':
+        for _, x in e[3]:
+            all_calls(x, out)
+    return out
+
+
+def subst_tie(P):
+    """the textual expansion the harness runs on the real generator (envgen.subst) against the Lean `subst` that
+    C06_call_means_its_expansion_closed_arguments is stated with, for every call with closed parser arguments"""
+    calls = []
+    for _, b in P['rules']:
+        all_calls(b, calls)
+    for _, _, b in P['templates']:
+        all_calls(b, calls)
+    n = 0
+    for c in calls:
+        name, params, body = P['templates'][c[1]]
+        if body[0] == 'bseq' or any(a[0] in ('py', 'pvar') or envgen.free_names(a) for _, a in c[2]):
+            continue
+        try:
+            sigma = envgen.bind_args(params, c[2])
+        except (KeyError, IndexError):
+            continue
+        req = (f'(envsubst (T ({" ".join(params)}) {envgen.wire(body)})'
+               + ''.join(f' ({kw or "-"} {envgen.wire(a)})' for kw, a in c[2]) + ')')
+        lean = _drv.ask(req)
+        if lean == 'na':
+            continue
+        n += 1
+        mine = envgen.wire(envgen.subst(body, sigma))
+        if lean != mine:
+            return f'expansion of {envgen.render(c, P)}: harness {mine[:150]} Lean subst {lean[:150]}', n
+    return None, n
+
+
 def run_program(P, inputs, named_tag=None):
     """-> dict(ws, rows=[(text, real, spec, impl)], error)"""
     if P.get('named'):
@@ -142,7 +194,9 @@ def run_program(P, inputs, named_tag=None):
     # with shadowing the real symbol counter and the lexical notion of free names part ways
     # (`let x = \`x\` in …` counts x as bound in its own binding expression): that is the known finding, not the tie
     fv_note, n_args = freevars_tie(P, real_rules) if head == 'ws=1' else (None, 0)
-    return {'ws': head == 'ws=1', 'rows': rows, 'text': text, 'fv_note': fv_note, 'n_closure_args': n_args}
+    sub_note, n_sub = subst_tie(P)
+    return {'ws': head == 'ws=1', 'rows': rows, 'text': text, 'fv_note': fv_note, 'n_closure_args': n_args,
+            'sub_note': sub_note, 'n_subst': n_sub}
 
 
 def _job(job):
@@ -159,6 +213,9 @@ def _job(job):
     out['kinds']['closure_args'] = res['n_closure_args']
     if res['fv_note']:
         out['broken'].append({'key': f'{job["id"]}|freevars', 'grammar': res['text'], 'what': res['fv_note']})
+    out['kinds']['subst_ties'] = res['n_subst']
+    if res['sub_note']:
+        out['broken'].append({'key': f'{job["id"]}|subst', 'grammar': res['text'], 'what': res['sub_note']})
     for t, real, spec, impl in res['rows']:
         out['evals'] += 1
         out['outcomes'][real[0]] = out['outcomes'].get(real[0], 0) + 1
